@@ -521,3 +521,128 @@ Proof.
   destruct (lm_lookup a (leases ps)) as [s'|]; [|left; reflexivity].
   destruct (N.eqb_spec s' s); [subst; right; reflexivity | discriminate].
 Qed.
+
+(* ---------------------------------------------------------------- profile order over the observable trace *)
+Lemma lists_run v : forall ks st st' evs g, reg_run_from v st ks = Some (st', evs) -> r_lists st' g = r_lists st g.
+Proof.
+  induction ks as [|k r IH]; simpl; intros st st' evs g H.
+  - inversion H; subst; reflexivity.
+  - destruct (reg_step v st k) as [[st1 o]|] eqn:E; [|discriminate].
+    destruct (reg_run_from v st1 r) as [[st2 evs']|] eqn:R; [|discriminate].
+    inversion H; subst. rewrite (IH _ _ _ g R). eapply lists_step; eauto.
+Qed.
+
+(* "pool k of family f has nothing free", said over the ledger of a history: every assignable key of the
+   allocator configured under k is held (vacuously true when no allocator was created for k) *)
+Definition pool_full (v : variant) (pfs : list rprofile) (evs : list (rcall * rout)) (f : rfam) (k : key) : Prop :=
+  forall ac a, cfg_of (reg_init v pfs) f k = Some ac -> assignable (acfg_pool ac) a = true ->
+               lm_lookup a (registry_ledger v pfs evs f k) <> None.
+
+Lemma has_free_false_full pfs ks st evs f k :
+  reg_run_from Repaired (reg_init Repaired pfs) ks = Some (st, evs) ->
+  has_free st f k = false -> pool_full Repaired pfs evs f k.
+Proof.
+  intros H HF ac a CK As L.
+  destruct (reg_run_view _ _ _ _ _ H) as [CF _]. rewrite <- CF in CK. unfold cfg_of in CK.
+  destruct (assoc_find key_eqb k (r_allocs st f)) as [[ac' ps]|] eqn:A; [|discriminate]. inversion CK; subst ac'.
+  destruct (registry_ledger_agrees _ _ _ _ _ _ _ _ _ H A) as [LE _]. rewrite <- LE in L.
+  assert (F : RInv st) by (eapply rinv_run; [apply rinv_init | exact H]).
+  destruct (rinv_find _ _ _ _ _ F A) as [_ M].
+  assert (In a (free ps)) as Hin by (apply M; auto).
+  unfold has_free in HF. rewrite A in HF. destruct (free ps); [contradiction | discriminate].
+Qed.
+
+(* Allocate*FromProfile answered from pool k: stated with the configuration and the earlier observable
+   events only - no state field appears *)
+Lemma profile_order_trace pfs ks st evs pre f pf ov vrf s obs k o post :
+  reg_run_from Repaired (reg_init Repaired pfs) ks = Some (st, evs) ->
+  evs = pre ++ (RAlloc f pf ov vrf s obs, ROAns k o) :: post ->
+  (ov <> 0 /\ k = (pf, ov)) \/
+  (exists l1 l2, pools_of (reg_init Repaired pfs) f pf = l1 ++ k :: l2 /\ cfg_vrf f k pfs = vrf /\
+     (ov = 0 \/ pool_full Repaired pfs pre f (pf, ov)) /\
+     forall k', In k' l1 -> cfg_vrf f k' pfs = vrf -> pool_full Repaired pfs pre f k').
+Proof.
+  intros H E. destruct (reg_run_split _ _ _ _ _ _ _ _ H E) as [ks1 [st1 [st2 [H1 H2]]]].
+  assert (F : RInv st1) by (eapply rinv_run; [apply rinv_init | exact H1]).
+  cbn [fst snd] in H2.
+  assert (OBS : exists ob, obs = Some ob).
+  { cbn [reg_step] in H2. destruct (alloc_target Repaired st1 f pf ov vrf); destruct obs as [ob|]; try discriminate; eauto.
+    }
+  destruct OBS as [[k0 o0] ->].
+  assert (EK : k0 = k /\ o0 = o).
+  { cbn [reg_step] in H2. destruct (alloc_target Repaired st1 f pf ov vrf) as [t|]; [|discriminate].
+    destruct (key_eqb t k0) eqn:EKK; [|discriminate]. apply key_eqb_eq in EKK; subst t.
+    destruct (on_pool Repaired st1 f k0 (mk_alloc Repaired s o0)) as [[sx ox]|]; [|discriminate].
+    inversion H2; subst; auto. }
+  destruct EK as [-> ->].
+  destruct (alloc_answer _ _ _ _ _ _ _ _ _ _ F H2) as [_ [_ [L|[l1 [l2 [P [V [O W]]]]]]]]; [left; exact L|].
+  right. exists l1, l2.
+  assert (PL : pools_of st1 f pf = pools_of (reg_init Repaired pfs) f pf)
+    by (unfold pools_of; rewrite (lists_run _ _ _ _ _ f H1); reflexivity).
+  rewrite <- PL. split; [exact P|].
+  rewrite <- (reachable_vrf _ _ _ _ f k H1). split; [exact V|]. split.
+  - destruct O as [O|O]; [left; exact O | right; eapply has_free_false_full; eauto].
+  - intros k' Hk Hv. eapply has_free_false_full; eauto. apply W; [exact Hk|].
+    rewrite (reachable_vrf _ _ _ _ f k' H1). exact Hv.
+Qed.
+
+(* exhaustion through a profile, over the trace: the override pool (if any) and every pool of the profile's
+   list configured for the subscriber's VRF have every assignable key held *)
+Lemma profile_exhausted_trace pfs ks st evs pre f pf ov vrf s obs post :
+  reg_run_from Repaired (reg_init Repaired pfs) ks = Some (st, evs) ->
+  evs = pre ++ (RAlloc f pf ov vrf s obs, ROExhausted) :: post ->
+  (ov = 0 \/ pool_full Repaired pfs pre f (pf, ov)) /\
+  forall k, In k (pools_of (reg_init Repaired pfs) f pf) -> cfg_vrf f k pfs = vrf -> pool_full Repaired pfs pre f k.
+Proof.
+  intros H E. destruct (reg_run_split _ _ _ _ _ _ _ _ H E) as [ks1 [st1 [st2 [H1 H2]]]].
+  cbn [fst snd] in H2.
+  assert (obs = None) as ->.
+  { cbn [reg_step] in H2. destruct (alloc_target Repaired st1 f pf ov vrf) as [t|]; destruct obs as [[k0 o0]|]; try discriminate; auto.
+    destruct (key_eqb t k0); [|discriminate].
+    destruct (on_pool Repaired st1 f t (mk_alloc Repaired s o0)) as [[sx ox]|]; discriminate. }
+  destruct (alloc_exhausted _ _ _ _ _ _ _ _ H2) as [O W].
+  assert (PL : pools_of st1 f pf = pools_of (reg_init Repaired pfs) f pf)
+    by (unfold pools_of; rewrite (lists_run _ _ _ _ _ f H1); reflexivity).
+  split.
+  - destruct O as [O|O]; [left; exact O | right; eapply has_free_false_full; eauto].
+  - intros k Hk Hv. eapply has_free_false_full; eauto. apply W; [rewrite PL; exact Hk|].
+    rewrite (reachable_vrf _ _ _ _ f k H1). exact Hv.
+Qed.
+
+(* ---------------------------------------------------------------- the walked list, from the configuration *)
+Definition ordered_keys (pf : rprofile) : list key :=
+  map (fun p => (rf_name pf, rp_name p))
+      (match rf_fam pf with F4 => sort_by_prio (rf_pools pf) | _ => rf_pools pf end).
+
+Lemma init_profile_pools_other v st pf f name :
+  (rf_fam pf, rf_name pf) <> (f, name) -> pools_of (init_profile v st pf) f name = pools_of st f name.
+Proof.
+  intros N. unfold pools_of, init_profile. rewrite fold_init_pool_lists, lists_set.
+  destruct (rfam_eqb (rf_fam pf) f) eqn:E; [|reflexivity].
+  apply rfam_eqb_eq in E. rewrite assoc_find_set_N.
+  destruct (N.eqb_spec name (rf_name pf)) as [->|]; [subst f; contradiction | subst f; reflexivity].
+Qed.
+
+(* with one pool list per (family, profile name) - what the two Go maps of profiles guarantee - the list
+   Allocate*FromProfile walks for a profile is that profile's pools: ascending priority (stable) for IPv4,
+   configuration order for IA_NA and PD *)
+Lemma reg_init_pools v : forall pfs pf,
+  NoDup (map (fun p => (rf_fam p, rf_name p)) pfs) -> In pf pfs ->
+  pools_of (reg_init v pfs) (rf_fam pf) (rf_name pf) = ordered_keys pf.
+Proof.
+  unfold reg_init.
+  assert (G : forall pfs st pf,
+            NoDup (map (fun p => (rf_fam p, rf_name p)) pfs) ->
+            (In pf pfs \/ (~ In (rf_fam pf, rf_name pf) (map (fun p => (rf_fam p, rf_name p)) pfs) /\
+                           pools_of st (rf_fam pf) (rf_name pf) = ordered_keys pf)) ->
+            pools_of (fold_left (init_profile v) pfs st) (rf_fam pf) (rf_name pf) = ordered_keys pf).
+  { induction pfs as [|q r IH]; intros st pf ND H; cbn [fold_left].
+    - destruct H as [[]|[_ H]]. exact H.
+    - cbn [map] in ND. inversion ND as [|? ? Hq NDr]; subst. apply IH; [exact NDr|].
+      destruct H as [[->|Hin]|[Hn HP]].
+      + right. split; [exact Hq|]. apply init_profile_pools.
+      + left. exact Hin.
+      + right. split; [intros X; apply Hn; right; exact X|].
+        rewrite init_profile_pools_other; [exact HP|]. intros X. apply Hn. left. exact X. }
+  intros pfs pf ND Hin. apply G; [exact ND | left; exact Hin].
+Qed.
